@@ -93,13 +93,16 @@ class Mem(object):
         for i, b in enumerate(bytearray(data)):
             self.cur[(tuple(chip), a + i)] = b
 
+    def cells(self):
+        return sorted((c[0], c[1], a, b) for (c, a), b in self.cur.items() if b != self.initial(c, a))
+
     def diff(self):
-        return sorted([c[0], c[1], a, b] for (c, a), b in self.cur.items() if b != self.initial(c, a))
+        return sim.pack_runs(self.cells())
 
 
 def mem_from_diff(case, diff):
     m = Mem(case)
-    for x, y, a, b in diff:
+    for x, y, a, b in sim.unpack_runs(diff):
         m.cur[((x, y), a)] = b
     return m
 
@@ -263,8 +266,8 @@ def oracle(case, op, res, mem, structs):
     if outcome[0] == "ok":
         mem.store(chip, address, data)
         if res["diff"] != mem.diff():
-            got = dict(((x, y, a), b) for x, y, a, b in res["diff"])
-            want = dict(((x, y, a), b) for x, y, a, b in mem.diff())
+            got = dict(((x, y, a), b) for x, y, a, b in sim.unpack_runs(res["diff"]))
+            want = dict(((x, y, a), b) for x, y, a, b in mem.cells())
             keys = sorted(k for k in set(got) | set(want) if got.get(k) != want.get(k))
             k0 = keys[0]
             inside = (k0[0], k0[1]) == tuple(chip) and address <= k0[2] < address + len(data)
@@ -274,10 +277,10 @@ def oracle(case, op, res, mem, structs):
                            got.get(k0, "unchanged"), want.get(k0, "unchanged"), len(keys))))
     else:
         # a call that gave up may have stored part of the data, but nothing else
-        allowed = dict(before_pairs(before))
+        allowed = dict(before_pairs(sim.unpack_runs(before)))
         for i, b in enumerate(bytearray(data)):
             allowed.setdefault((chip[0], chip[1], address + i), set()).add(b)
-        for x, y, a, b in res["diff"]:
+        for x, y, a, b in sim.unpack_runs(res["diff"]):
             if b not in allowed.get((x, y, a), set()):
                 bad.append(("write-outside-target", "byte (%d,%d) %#x = %d after a failed write" % (x, y, a, b)))
                 break
@@ -410,7 +413,7 @@ def trace_digest(trace):
     for t in trace:
         x, y, p, cmd, a1, a2, a3, data = t[:8]
         for v in (x, y, p, cmd, a1, a2, a3, sim.digest(bytearray.fromhex(data)) if cmd in (CMD_WRITE, CMD_LINK_WRITE) else 0):
-            h = (h * 1000003 + v + 1) % 1000000007
+            h = (h * 1000003 + v + 1) & 0x3fffffff
     return h
 
 
@@ -435,7 +438,7 @@ def probe_windows(case, structs):
         except Exception:
             continue
         if t[0] == "read":
-            spans.append((t[2], t[3]))
+            spans.append((t[2], min(t[3], 16)))        # a read leaves the memory alone: a small window is enough
         elif t[0] == "write":
             spans.append((t[2], len(t[3])))
             mem.store(t[1], t[2], t[3])
@@ -498,20 +501,29 @@ def rand_base(rng, span):
     return a - a % 4
 
 
-def gen_enumeration(rng, buffers, windows):
-    """all (address mod 4, length) with length 0 .. 3 * buffer + 5, read and write, each window"""
+def gen_enumeration(rng, buffers, windows, border=(), rotate=()):
+    """all (address mod 4, length) with length 0 .. 3 * buffer + 5, read and write, each window; for the buffer
+    sizes in `border` only the lengths around 0 and around every multiple of the buffer size (+-3) and a random
+    sample; for those in `rotate` one window per case (the window rotates with the length) and read / write
+    alternate with the parity of length + alignment (quick tier: keeps the big transfers affordable)"""
     groups = []
-    for B in buffers:
+    for B in list(buffers) + list(border):
+        lengths = list(range(0, 3 * B + 6))
+        if B in border:
+            keep = set(range(0, 21)) | set(k * B + d for k in (1, 2, 3) for d in range(-3, 4))
+            keep |= set(rng.sample(lengths, 12))
+            lengths = sorted(n for n in lengths if n in keep)
         for am in range(4):
-            for n in range(0, 3 * B + 6):
-                for kind in ("read", "write"):
+            for n in lengths:
+                ws = windows if B not in rotate else [windows[(n + am) % len(windows)]]
+                for kind in (("read", "write") if B not in rotate else (("read", "write")[(n + am) % 2],)):
                     base = rand_base(rng, n + 4) + am
                     p = rng.choice([0, 0, 1, 5, 17])
                     layer = rng.choice(["", "conn_"])
                     op = [layer + kind, p, base, n] if kind == "read" else [layer + kind, p, base, ["pat", rng.randrange(1000), n]]
-                    first = base_case(rng, B, windows[0], [op], tag="enum")
+                    first = base_case(rng, B, ws[0], [op], tag="enum")
                     group = [first]
-                    for w in windows[1:]:
+                    for w in ws[1:]:
                         c = dict(first)
                         c["window"] = w
                         group.append(c)
@@ -722,8 +734,11 @@ def run(chk, args):
         groups = [[f["replay"]["case"]] for f in rep.get("failures", []) + rep.get("no_longer_checks", [])
                   if "case" in f.get("replay", {})]
     else:
-        groups = gen_enumeration(rng, [4, 5, 8, 16, 248, 256] if quick else
-                                 [4, 5, 6, 7, 8, 12, 16, 19, 24, 33, 51, 56, 64, 120, 128, 243, 248, 255, 256, 300], windows)
+        if quick:
+            groups = gen_enumeration(rng, [4, 5, 8, 16, 256], windows, border=[243, 248], rotate=[243, 248, 256])
+        else:
+            groups = gen_enumeration(rng, [4, 5, 6, 7, 8, 12, 16, 19, 24, 33, 51, 56, 64, 120, 128, 243, 248, 255,
+                                           256, 300], windows)
         singles = gen_fields(rng, structs, [4, 5, 8, 16, 248, 256], windows)
         singles += gen_fills(rng, [4, 16, 256] if quick else [4, 5, 8, 16, 248, 256], windows,
                              list(range(0, 41)) + [252, 256, 260, 1024, 1027])
@@ -742,11 +757,18 @@ def run(chk, args):
                     [kind, rng.choice([0, 1, 17]), base, ["pat", rng.randrange(1000), n]]
                 singles.append(base_case(rng, B, rng.choice(windows), [op], tag="sampled"))
         groups += [[c] for c in singles]
+    sub = int(os.environ.get("C07_SUBSAMPLE", "1"))          # bring-up aid: keep every sub-th group
+    if sub > 1:
+        groups = groups[::sub]
     corpus = os.path.join(lib.VERIF, "corpus", "C07.json")
     if os.path.exists(corpus) and not args.replay:
         groups = [[c] for c in json.load(open(corpus))] + groups
 
     # ---- implementation
+    import time
+    T0 = time.time()
+    dbg = lambda what: os.environ.get("C07_TIMING") and print("[c07] %-28s %.1fs" % (what, time.time() - T0), flush=True)
+    dbg("generated")
     flat = [c for g in groups for c in g]
     size = 400
     chunks = [flat[i:i + size] for i in range(0, len(flat), size)]
@@ -756,6 +778,7 @@ def run(chk, args):
         results[id(c)] = o
 
     # ---- oracle on every implementation run
+    dbg("implementation ran")
     seen_keys = set()
     for g in groups:
         for c in g:
@@ -787,6 +810,7 @@ def run(chk, args):
                                               for r in results[id(mid)]] if isinstance(results[id(mid)][0], dict) else results[id(mid)]))
 
     # ---- model
+    dbg("oracle done")
     if chk.model_ok:
         try:
             exprs, meta = [], []
@@ -816,7 +840,9 @@ def run(chk, args):
                     if e is not None:
                         exprs.append(e)
                         meta.append(("trace", c, ps))
+            dbg("coq cases written (%d)" % len(exprs))
             vals = chk.coq_eval(HEADER, exprs, shard=250, timeout=2400)
+            dbg("coq evaluated")
             n_model = n_trace = 0
             for (what, obj, ps), v in zip(meta, vals):
                 if what == "trace":
